@@ -36,6 +36,12 @@ MM_GRAMMARS = [
         Lit: '"' | '{|}' | /[<>]+\\/ | "it's" '?';''',
     r'''Model: ('{' things*=Thing['|'] '}')#; Thing: name=ID ':' val=Val; Val: STRING | /\d+"\|/ | '>';''',
 ]
+# long match rules full of characters that need escaping in the HTML-like table of the match rules: the first
+# alternative is 0..7 letters long, which moves every later character over any fixed column
+_OPS = ['<<=', '>>=', '&&', '->', '<=', '>=', '<>', '&', '<', '>', '"', "'x'", '=>', '<-', '&=', '>>', '<<', '|', '{', '}']
+MM_GRAMMARS += ["Model: ops+=Op; Op: %s%s;" % ("'%s' | " % ('a' * k) if k else '',
+                                               ' | '.join('"%s"' % o.replace('"', '\\"') if "'" in o else "'%s'" % o for o in _OPS))
+                for k in range(8)]
 
 
 # ---------------------------------------------------------------- DOT reader
@@ -386,6 +392,13 @@ def metamodel_checks():
                 lab = attrs.get('label')
                 if lab is not None and lab[0] == 'str':
                     check_record_label(lab[1])
+                elif lab is not None and lab[0] == 'html':
+                    # an HTML-like label is XML: tags balanced, every & starts a complete entity
+                    import xml.etree.ElementTree as ET
+                    try:
+                        ET.fromstring('<r>%s</r>' % lab[1])
+                    except ET.ParseError as e:
+                        raise DotError('HTML-like label of node %s is not well-formed: %s' % (nid, e))
         except DotError as e:
             out.append({'kind': 'metamodel-dot', 'grammar': g, 'detail': 'invalid DOT: %s' % e})
         except Exception as e:  # noqa
